@@ -29,6 +29,7 @@ struct TL { step: Step, src: PathBuf, log: Rc<RefCell<Vec<String>>> }
 fn payload_env(p: u8) -> LayerEnv {
     let mut e = LayerEnv::new();
     e.insert(Scope::All, MB::Override, "ALL", format!("all-{p}"));
+    e.insert(Scope::All, MB::Default, "spring.profiles.active", "prod"); e.insert(Scope::All, MB::Default, "spring.profiles", "x");
     e.insert(Scope::Build, MB::Append, "BUILD", format!("build-{p}\n"));
     e.insert(Scope::Build, MB::Delimiter, "BUILD", ":");
     if p == 1 { e.insert(Scope::Launch, MB::Default, "LAUNCH", "launch"); e.insert(Scope::Process("web".into()), MB::Prepend, "WEB", "web-1"); }
@@ -75,7 +76,7 @@ fn expected_env_tree(p: u8) -> (Tree, Tree, Tree) {
     if p == 2 { return (Tree::new(), Tree::new(), Tree::new()); }
     let f = |b: &[u8]| format!("file:{:?}", b.to_vec());
     let mk = |es: Vec<(&str, String)>| -> Tree { es.into_iter().map(|(k, v)| (PathBuf::from(k), v)).collect() };
-    let all = mk(vec![("ALL.override", f(format!("all-{p}").as_bytes()))]);
+    let all = mk(vec![("ALL.override", f(format!("all-{p}").as_bytes())), ("spring.profiles.active.default", f(b"prod")), ("spring.profiles.default", f(b"x"))]);
     let build = mk(vec![("BUILD.append", f(format!("build-{p}\n").as_bytes())), ("BUILD.delim", f(b":"))]);
     let launch = if p == 1 { mk(vec![("LAUNCH.default", f(b"launch")), ("web", "dir".to_string()), ("web/WEB.prepend", f(b"web-1"))]) }
         else { mk(vec![("worker", "dir".to_string()), ("worker/WORKER.override", f(b"worker-0"))]) };
